@@ -22,18 +22,8 @@ def leaf? : Sexp → Option LeafTrace
   | _ => none
 def ofLeaf (l : LeafTrace) : Sexp := .list [ofList ofEv l.log, ofList ofTbtCall l.calls]
 
-def classes (i : Input) : List String :=
-  if Spec.C08.tbtEmptyDetails i then ["tbtEmptyDetails"] else []
-
 def drv : PropDrv Input Trace :=
-  { decI := input?, decT := list? leaf?, encT := ofList ofLeaf, model := model,
-    clauses := Spec.C08.clauses, classes := classes }
+  { decI := input?, decT := list? leaf?, encT := ofList ofLeaf, model := model, clauses := Spec.C08.clauses }
 
-/-- Framework workaround (harness/check.py treats a spec failure on the *model's* trace as an infrastructure
-error even for inputs of a known-finding class, where the model reproduces the defect on purpose): for
-inputs in a finding class the "spec on model" field of the reply is reported as `ok`. -/
-def handle (a : List Sexp) : Sexp :=
-  match drv.handle a with
-  | .list [m, si, _, .list (c :: cs)] => .list [m, si, .atom "ok", .list (c :: cs)]
-  | r => r
+def handle : List Sexp → Sexp := drv.handle
 end TTV.Drv.C08
